@@ -74,6 +74,12 @@ func (w *Waiter) Next() GenericDataType {
 		data, ok := w.Diode.TryNext()
 		if !ok {
 			if w.isDone() {
+				// A Set may have landed between the failed TryNext above and
+				// the cancellation: look once more so that nothing written
+				// before the context was cancelled is left behind.
+				if data, ok = w.Diode.TryNext(); ok {
+					return data
+				}
 				return nil
 			}
 
